@@ -433,6 +433,16 @@ def run(ctx) -> None:
     # "every payload octet string": the JSON extraction accepts every base64url payload member, the empty one included (C01's extraction rule)
     from .c01 import r01_7
     ctx.guard_as("R03.10", r01_7)
+    # "every key of the type the algorithm requires", "every admissible header": verify() refuses only on an exact octet length; the header codec
+    # encodes every JSON string (C07 R07.12, C19 R19.4 / R19.5)
+    from .c07 import r07_12
+    from .c19 import r19_4_5
+    ctx.guard_as("R03.11", r07_12)
+    ctx.guard_as("R03.11", r19_4_5)
+    from .common import octet_length_lint
+    ctx.guard(octet_length_lint, "R03.13")  # "every key of the type and curve that algorithm requires": RSA moduli / curve sizes that are not multiples of 8
+    from .c04 import r04_14
+    ctx.guard_as("R03.12", r04_14)  # "exactly the original header members": no member is ever removed from a header object
     ctx.guard(r03_7)
     ctx.guard(r03_6)
     ctx.guard(r03_1)
